@@ -6,21 +6,22 @@
    (opaque here), [terr = false] means the reader ends with io.EOF, [orc i] is
    the arbitrary behaviour (bufio or not, Peek success, Read chunking) of the
    reader during the i-th call, [frame_ok max body] says the body is accepted
-   by the codec, its length fits the effective MaxSize and the allocator limit
-   (2^48 on linux/amd64; implied by the default MaxSize). *)
+   by the codec, its length fits the effective MaxSize and math.MaxInt (every Go
+   slice does). *)
 From Coq Require Import List NArith ZArith Lia.
 From PB Require Import Base.PBytes Wire.WireModel Msg.DelimModel Msg.DelimP Gen.DelimConsts.
 Import ListNotations.
 Open Scope N_scope.
 
 (* Tier T: the constants of the model are the ones extracted from protodelim.go
-   (defaultMaxSize, len(sizeArr), the MaxSize value that disables the limit and its bound) *)
+   (defaultMaxSize, maxPreallocSize, len(sizeArr), the MaxSize value that disables the limit and its bound) *)
 Theorem C27_constants_match_source :
   default_max_size = DelimConsts.defaultMaxSize /\
   N.of_nat size_arr_len = DelimConsts.sizeArrLen /\
   max_int = DelimConsts.unlimitedBound /\
   effective_max DelimConsts.unlimitedMaxSize = DelimConsts.unlimitedBound /\
-  effective_max 0 = DelimConsts.defaultMaxSize.
+  effective_max 0 = DelimConsts.defaultMaxSize /\
+  max_prealloc_size = DelimConsts.maxPreallocSize.
 Proof. exact delim_consts_ok. Qed.
 Print Assumptions C27_constants_match_source.
 
@@ -33,7 +34,7 @@ Proof. exact roundtrip. Qed.
 Print Assumptions C27_delim_roundtrip.
 Example C27_delim_roundtrip_nonvacuous :
   Forall (frame_ok (fun _ => true) 0) [[]; [x08; x01]; repeat x00 200].
-Proof. repeat (apply Forall_cons; [unfold frame_ok; cbn; unfold default_max_size, max_alloc; repeat split; lia|]). apply Forall_nil. Qed.
+Proof. repeat (apply Forall_cons; [unfold frame_ok; cbn; unfold default_max_size, max_int; repeat split; lia|]). apply Forall_nil. Qed.
 
 (* a single call returns io.EOF iff the stream is empty (and ends with EOF) *)
 Theorem C27_delim_eof_exact :
@@ -50,26 +51,25 @@ Theorem C27_delim_eof_at_boundary :
 Proof. exact eof_at_boundary. Qed.
 Print Assumptions C27_delim_eof_at_boundary.
 
-(* a stream cut strictly inside a frame (size varint or body) gives io.ErrUnexpectedEOF,
-   except F15: see C27_delim_truncation_refuted_F15 for bodies above the allocator limit *)
-Theorem C27_delim_truncation_except_F15 :
+(* a stream cut strictly inside a frame (size varint or body) gives io.ErrUnexpectedEOF *)
+Theorem C27_delim_truncation :
   forall body_ok orc max bs body j,
   Forall (frame_ok body_ok max) bs -> frame_ok body_ok max body ->
   (0 < j < length (marshal_to body))%nat ->
   read_stream body_ok false orc max (stream_of bs ++ firstn j (marshal_to body))
   = map DOk bs ++ [DUnexpectedEOF].
 Proof. exact truncation. Qed.
-Print Assumptions C27_delim_truncation_except_F15.
+Print Assumptions C27_delim_truncation.
 Example C27_delim_truncation_nonvacuous :
   frame_ok (fun _ => true) 0 [x08; x01] /\ (0 < 2 < length (marshal_to [x08; x01]))%nat.
-Proof. split; [unfold frame_ok; cbn; unfold default_max_size, max_alloc; repeat split; lia | cbn; lia]. Qed.
+Proof. split; [unfold frame_ok; cbn; unfold default_max_size, max_int; repeat split; lia | cbn; lia]. Qed.
 
-(* F15: MaxSize = -1 and a size in (2^48, 2^63): the stream is truncated inside
-   the body, but the implementation panics in make([]byte, size) *)
-Theorem C27_delim_truncation_refuted_F15 :
-  exists s, unmarshal_from (fun _ => true) false plain_oracle (-1) s = (DAllocPanic, []).
-Proof. exists f15_stream. exact f15_panics. Qed.
-Print Assumptions C27_delim_truncation_refuted_F15.
+(* regression for the repaired F15: MaxSize = -1 and the size prefix 2^63-1 with
+   no body is a truncated stream, not a panic *)
+Theorem C27_delim_truncation_unbacked_size :
+  unmarshal_from (fun _ => true) false plain_oracle (-1) f15_stream = (DUnexpectedEOF, []).
+Proof. exact f15_unexpected_eof. Qed.
+Print Assumptions C27_delim_truncation_unbacked_size.
 
 (* SizeTooLargeError{Size, MaxSize} iff the size read exceeds the effective maximum *)
 Theorem C27_delim_too_large :
@@ -91,12 +91,10 @@ Proof. cbn; unfold default_max_size; lia. Qed.
 
 (* the result of one call does not depend on the reader (bufio/Peek/chunking) *)
 Theorem C27_delim_reader_independent :
-  forall body_ok terr o max s, N.of_nat (length s) <= max_alloc ->
+  forall body_ok terr o max s,
   unmarshal_from body_ok terr o max s = unmarshal_from_ref body_ok terr max s.
 Proof. exact unmarshal_from_ref_eq. Qed.
 Print Assumptions C27_delim_reader_independent.
-Example C27_delim_reader_independent_nonvacuous : N.of_nat (length [x00]) <= max_alloc.
-Proof. cbn; unfold max_alloc; lia. Qed.
 
 (* io.ReadFull delivers exactly the next [need] bytes, whatever the chunking *)
 Theorem C27_read_full_chunk_independent :
